@@ -450,6 +450,7 @@ func (m c10) Case(c *Ctx, r *RNG) {
 }
 
 func (m c10) Directed(c *Ctx) {
+	sameNameCheck(c, "C10")
 	limit := c.Pick(40, 1<<30)
 	c.Name = "pool-product"
 	for _, k := range allKinds {
